@@ -10,7 +10,8 @@
 From Coq Require Import List Bool NArith ZArith.
 From Coq.Strings Require Import Byte String.
 From Verif Require Import Base.Bytes Idl.Ast Idl.Lex Idl.LexFacts Idl.Parse Idl.Dump
-  Idl.DumpFacts Idl.DumpLexFacts Idl.DumpNumFacts Idl.DumpParseFacts Idl.DumpTopFacts Idl.DumpLitFacts.
+  Idl.DumpFacts Idl.DumpLexFacts Idl.DumpNumFacts Idl.DumpParseFacts Idl.DumpTopFacts Idl.DumpLitFacts
+  Idl.Resolve Idl.DumpResolveFacts.
 Import ListNotations.
 
 (* ---- string literals keep their exact characters (the escaping is exact).
@@ -99,6 +100,35 @@ Print Assumptions C17_roundtrip.
    comments on a typedef, an enum, enum values, a struct, a field and a function) is in the domain *)
 Example C17_domain_inhabited : dump_ok sample_fmt sample_file = true /\ view_ok sample_fmt sample_file = true.
 Proof. exact sample_in_domain. Qed.
+
+(* ---- dump_passes_semantic: the dumped program is accepted by symbol resolution (the model
+   Idl/Resolve.v of semantic.ResolveSymbols, property C05) whenever the original is.
+   [sem_view] is what the dumper does to a file as far as resolution can see: recorded comments
+   and cpp_type are dropped and a double is replaced by the constant its text denotes.
+   Resolution commutes with it (for EVERY program, no hypothesis): *)
+Theorem C17_resolve_commutes_with_view :
+  forall (fmt : N -> bytes) (p : program),
+  resolve_program (sem_view_program fmt p) = rmap (sem_view_program fmt) (resolve_program p).
+Proof. exact resolve_program_sem_view. Qed.
+Print Assumptions C17_resolve_commutes_with_view.
+
+(* [dumped_program]: every file replaced by its [dump_view], its include statements pointing to
+   the same files again (the recursive parser re-reads the dumped tree).  For programs as the
+   parser produces them ([parsed_ok]: the parser-built shape [view_ok], no resolution info yet)
+   it is the [sem_view] of the program, so it resolves, and to the view of the original result. *)
+Theorem C17_dump_passes_semantic :
+  forall (fmt : N -> bytes) (p r : program),
+  forallb (fun e => parsed_ok fmt (snd e)) p = true ->
+  resolve_program p = Ok r ->
+  resolve_program (dumped_program fmt p) = Ok (sem_view_program fmt r).
+Proof. exact dump_passes_semantic. Qed.
+Print Assumptions C17_dump_passes_semantic.
+
+Example C17_dump_passes_semantic_inhabited :
+  forallb (fun e => parsed_ok sem_sample_fmt (snd e)) sem_sample = true /\
+  (match resolve_program sem_sample with Ok _ => true | Error _ => false end) = true /\
+  (match resolve_program (dumped_program sem_sample_fmt sem_sample) with Ok _ => true | Error _ => false end) = true.
+Proof. exact sem_sample_ok. Qed.
 
 (* ---- the former known finding C17-empty-file-not-document is gone: a file with nothing to print
    is dumped as the empty text, lies in the domain, and is read back as the empty file (parser
